@@ -132,3 +132,11 @@ circular_step!(c8_2_4, 8, 2, 4, q14_base, q14_write_step, q14_take_step, t14_clo
 circular_step!(c8_1_8, 8, 1, 8, t14_base, t14_write_step, t14_take_step, t14_close_step);
 circular_step!(c16_4_8, 16, 4, 8, t14_base, t14_write_step, t14_take_step, t14_close_step);
 circular_step!(c12_3_6, 12, 3, 6, t14_base, t14_write_step, t14_take_step, t14_close_step);
+
+// native replay slot (cargo kani playback): the driver points IPA_VERIF_REPLAY_DIR at a directory
+// holding one file per hook; the generated test calls the harness by its path relative to this module.
+#[cfg(test)]
+mod replay_here {
+    use super::*;
+    include!(concat!(env!("IPA_VERIF_REPLAY_DIR"), "/circular.rs"));
+}
